@@ -281,3 +281,19 @@ NOT_APPLICABLE = {
     'C18': 'Determinism / hash-seed independence is a 2-safety property over runs whose only threat is iteration over std HashMap; the iterating functions are outside Verus\' accepted subset and Kani must stub RandomState to a constant, which assumes the property away.',
     'C20': 'Layout/case/clause-order insensitivity is a relation between the parses of TWO texts. The contracts within reach are per call: tokenize is under contract for positions, the End token and operator fusion (unit tokenizer), but relating two runs needs a complete functional specification of the token sequence (keyword table behind lazy_static, string escapes, comments, IS NOT / NOT IN fusion) plus an induction over a stateful scanner and over the recursive-descent clause loop, whose functions (Parser::parse_*, Box/Vec-building tree code, format!) are outside the subset Verus accepts here; a specification that complete would restate the tokenizer and parser rather than the property. No contract within reach decides it.',
 }
+
+
+def _grid_bound(name):
+    """the stated bound of a grid = the `// Grid:` paragraph of its header comment"""
+    import os, re
+    text = open(os.path.join(os.path.dirname(os.path.abspath(__file__)), 'grid', name + '.rs')).read()
+    head = text.split('include!', 1)[0]
+    lines = [l[2:].strip() for l in head.split('\n') if l.startswith('//')]
+    joined = ' '.join(lines)
+    m = re.search(r'Grid: (.*)$', joined)
+    return (m.group(1) if m else joined)[:1400]
+
+
+for _spec in CHECKS.values():
+    if _spec.get('grid'):
+        _spec['grid']['bound'] = '; '.join(_grid_bound(n) for n in _spec['grid']['sets'])
